@@ -57,6 +57,22 @@ var Props = map[string]PropSpec{
 }
 
 func init() {
+	Props["C34"] = PropSpec{Engine: "relaysim", Level: "exploration", QuickS: 60, ThoroughS: 1200, MinBudget: 300,
+		Rule: "one evaluation = one history of rounds on a whole node at committed heights: per round 2-6 client relay requests (distinct, or identical retries; for the current session or, within the client tolerance, for the previous one) and optionally the node's own claim pass are in flight at once, each on its own goroutine parked at the hook-H1 yield points (relay validated, evidence loaded for read-modify-write, proof stored, evidence about to be sealed at the limit, claim about to seal); every step of the schedule names the one task that proceeds to its next yield point, blocks are executed between rounds; after each round the stored evidence of every touched session is judged: no proof hash twice, not more proofs than the application allows this node, every relay answered with a signed response before the evidence was first seen sealed is present; distinct case = (proofs stored, answered, sealed, identical requests present)",
+		Assumptions: []string{
+			"interleaving granularity = the hook-H1 yield points (all placed where no lock is held); data races inside a single critical section are not scheduled",
+			"one goroutine runs at a time (parked goroutines are released one by one by the schedule), so the interleaving is the step list and replays exactly",
+			"per-application allowances are kept small (tens of relays) by configuration so that a handful of concurrent requests reaches the limit",
+			"sampling, not proof: seeded search over interleavings and request mixes",
+		},
+		RealStub: map[string]string{
+			"app.HandleRelay, x/pocketcore keeper (HandleRelay, SendClaimTx), types (Relay.Validate, evidence cache, sealing), sessions, x/apps, x/nodes, store": "real",
+			"goroutine scheduler":   "simulated: seeded choice of which parked request proceeds (hook H1 SimYield)",
+			"hosted chain endpoint": "stub: in-process RoundTripper",
+			"Tendermint":            "stub: block driver (as chainsim)",
+			"LevelDB":               "stub: simdb",
+			"pocket-core HTTP RPC":  "not run: requests call PocketCoreApp.HandleRelay, the function the RPC handler calls",
+		}}
 	Props["C40"] = PropSpec{Engine: "kbsim", Level: "exploration", QuickS: 40, ThoroughS: 900, MinBudget: 120,
 		Rule: "one evaluation = one generated keybase history (12-40 operations: create, import of raw keys and of exported armors, export as object and as armor, sign, passphrase update, delete with passphrase, unsafe delete, get, list) on the real keybase over the simulated disk, with the right passphrase or a near-miss (case, trailing blank, NUL, common 72-byte prefix, unicode, empty), reopen of the keybase over the surviving disk, single-bit flips of stored records and of exported armors; oracle: address -> (key, passphrase) map - a private key is only ever handed out (export, sign, update, delete, armor decrypt/import) for its passphrase and is byte-identical to the stored key, listed = stored, deleted = gone; after a flip only the damaged record is relaxed (it may fail, it may never yield another key or accept another passphrase); distinct case = (operation, record state, right/wrong passphrase, outcome)",
 		Assumptions: []string{
